@@ -243,6 +243,31 @@ pub mod sync {
                 maybe_yield().await;
                 self.0.send(value).await
             }
+
+            pub fn try_send(&self, value: T) -> Result<(), error::TrySendError<T>> {
+                self.0.try_send(value)
+            }
+
+            pub async fn send_timeout(&self, value: T, timeout: std::time::Duration) -> Result<(), error::SendTimeoutError<T>> {
+                maybe_yield().await;
+                self.0.send_timeout(value, timeout).await
+            }
+
+            pub async fn closed(&self) {
+                self.0.closed().await
+            }
+
+            pub fn is_closed(&self) -> bool {
+                self.0.is_closed()
+            }
+
+            pub fn capacity(&self) -> usize {
+                self.0.capacity()
+            }
+
+            pub fn max_capacity(&self) -> usize {
+                self.0.max_capacity()
+            }
         }
 
         pub struct Receiver<T>(real::Receiver<T>);
@@ -258,6 +283,22 @@ pub mod sync {
             pub async fn recv(&mut self) -> Option<T> {
                 maybe_yield().await;
                 self.0.recv().await
+            }
+
+            pub fn try_recv(&mut self) -> Result<T, error::TryRecvError> {
+                self.0.try_recv()
+            }
+
+            pub fn close(&mut self) {
+                self.0.close()
+            }
+
+            pub fn len(&self) -> usize {
+                self.0.len()
+            }
+
+            pub fn is_empty(&self) -> bool {
+                self.0.is_empty()
             }
         }
 
@@ -286,6 +327,14 @@ pub mod sync {
         impl<T> Sender<T> {
             pub fn send(self, value: T) -> Result<(), T> {
                 self.0.send(value)
+            }
+
+            pub fn is_closed(&self) -> bool {
+                self.0.is_closed()
+            }
+
+            pub async fn closed(&mut self) {
+                self.0.closed().await
             }
         }
 
@@ -348,6 +397,18 @@ pub mod sync {
             pub fn subscribe(&self) -> Receiver<T> {
                 Receiver(self.0.subscribe())
             }
+
+            pub fn receiver_count(&self) -> usize {
+                self.0.receiver_count()
+            }
+
+            pub fn len(&self) -> usize {
+                self.0.len()
+            }
+
+            pub fn is_empty(&self) -> bool {
+                self.0.is_empty()
+            }
         }
 
         pub struct Receiver<T>(real::Receiver<T>);
@@ -363,6 +424,22 @@ pub mod sync {
             pub async fn recv(&mut self) -> Result<T, error::RecvError> {
                 maybe_yield().await;
                 self.0.recv().await
+            }
+
+            pub fn try_recv(&mut self) -> Result<T, error::TryRecvError> {
+                self.0.try_recv()
+            }
+
+            pub fn resubscribe(&self) -> Receiver<T> {
+                Receiver(self.0.resubscribe())
+            }
+
+            pub fn len(&self) -> usize {
+                self.0.len()
+            }
+
+            pub fn is_empty(&self) -> bool {
+                self.0.is_empty()
             }
         }
 
